@@ -70,13 +70,16 @@ static RunRes spawn(const std::string &bin, const std::vector<std::string> &args
   }
   r.spawned = true;
   int st = 0;
-  time_t t0 = time(NULL);
+  struct timespec ts0;
+  clock_gettime(CLOCK_MONOTONIC, &ts0);
   for (;;)
   {
     pid_t w = waitpid(pid, &st, WNOHANG);
     if (w == pid)
       break;
-    if (time(NULL) - t0 > 30)
+    struct timespec ts1;
+    clock_gettime(CLOCK_MONOTONIC, &ts1);
+    if (ts1.tv_sec - ts0.tv_sec > 30)
     {
       kill(pid, SIGKILL);
       waitpid(pid, &st, 0);
